@@ -53,18 +53,3 @@ Theorem C14_no_seed_on_failure : forall sgn ls cs o, TraceProofs.is_constructor 
   end.
 Proof. exact TraceProofs.constructor_outcome. Qed.
 Print Assumptions C14_no_seed_on_failure.
-
-(* ---- the tie to the code: utf8_nfkd_lazy (dependency.h) as TRANSLATED from /repo's current source on
-   this run (Gen/CFuns.v) computes what the mirror StrDefs.nfkd_lazy computes - for EVERY C string,
-   EVERY injected normaliser D (its result taken as given), EVERY previous content of the destination
-   buffer of POLYSEED_STR_SIZE cells: either D's result, or the copied prefix followed by the
-   terminator with every other cell untouched (so no cell at or beyond POLYSEED_STR_SIZE is written) *)
-Theorem C14_code_tie_lazy : forall sgn (nf : transform) (D : list Z -> list Z * Z) s norm0 fuel,
-  no_nul s -> length norm0 = N.to_nat STR_SIZE -> (length s + 2 <= fuel)%nat ->
-  (D (zs s) = (zs (fst (nf s)), Z.of_N (snd (nf s)))) ->
-  CFuns.utf8_nfkd_lazy fuel sgn D (zs s) norm0 =
-    let '(content, size, called) := nfkd_lazy nf s in
-    if called then Some (zs content, Z.of_N size)
-    else Some (zs content ++ 0%Z :: skipn (S (length content)) norm0, Z.of_N size).
-Proof. exact tie_nfkd_lazy_mirror. Qed.
-Print Assumptions C14_code_tie_lazy.
